@@ -217,6 +217,9 @@ def sdivmod(a, b):
     p.zc.append(r < bt)
     res = (SInt(q), SInt(r))
     p.ghost[key] = res
+    # definition table: remainder / quotient witness -> (dividend, divisor)  (used by translators to other domains)
+    p.ghost.setdefault("divmod-defs", {})[str(r)] = ("rem", at, bt)
+    p.ghost["divmod-defs"][str(q)] = ("quo", at, bt)
     return res
 
 
